@@ -3,7 +3,8 @@ import ast
 import re
 
 from ..model import AnalysisError
-from ..lib import FV, decode_new, decode_call, phi_members, is_sym, is_const, is_str, strip_stores, stores_of, tuple_consts
+from ..lib import (FV, decode_new, decode_call, phi_members, is_sym, is_const, is_str, strip_stores, stores_of, tuple_consts,
+                   find_assign, find_assigns, simple_assigns, local_term, call_name)
 from ..cfg import always_raises, walk_stmts
 from . import common as cm
 from . import geom
@@ -21,25 +22,33 @@ OVF_CHECK = {4: 1234567.0, 8: 123456789012345.0}     # OVF specification: binary
 
 
 def header_template(v):
-    """parse the f-string of the header: -> (list of '# ...' lines as [(text, [expr nodes])], JoinedStr node)"""
+    """parse the f-string of the header: -> (list of '# ...' lines as [(text, [expr nodes])], statement)
+    The statement is found by its content (an f-string starting with the OVF magic line), not by a variable name."""
     for st in v.stmts():
-        if isinstance(st, ast.Assign) and isinstance(st.targets[0], ast.Name) and st.targets[0].id == "bheader":
-            js = [n for n in ast.walk(st.value) if isinstance(n, ast.JoinedStr)]
-            if not js:
-                raise AnalysisError("_to_ovf: header is not an f-string")
-            j = js[0]
-            lines = [["", []]]
-            for part in j.values:
-                if isinstance(part, ast.Constant):
-                    segs = part.value.split("\n")
-                    lines[-1][0] += segs[0]
-                    for sg in segs[1:]:
-                        lines.append([sg, []])
-                else:
-                    lines[-1][0] += "{}"
-                    lines[-1][1].append(part.value)
-            return [(t.strip(), e) for t, e in lines], st
-    raise AnalysisError("_to_ovf: header assignment vanished")
+        if isinstance(st, ast.Assign):
+            for j in [n for n in ast.walk(st.value) if isinstance(n, ast.JoinedStr)]:
+                if j.values and isinstance(j.values[0], ast.Constant) and "OOMMF OVF" in str(j.values[0].value):
+                    lines = [["", []]]
+                    for part in j.values:
+                        if isinstance(part, ast.Constant):
+                            segs = part.value.split("\n")
+                            lines[-1][0] += segs[0]
+                            for sg in segs[1:]:
+                                lines.append([sg, []])
+                        else:
+                            lines[-1][0] += "{}"
+                            lines[-1][1].append(part.value)
+                    return [(t.strip(), e) for t, e in lines], st
+    raise AnalysisError("_to_ovf: no f-string header starting with '# OOMMF OVF' found")
+
+
+def reader_header_name(r):
+    """name of the dictionary the reader fills with header entries (the one subscripted with 'valuedim')"""
+    for n in ast.walk(r.f.node):
+        if isinstance(n, ast.Subscript) and isinstance(n.value, ast.Name) and isinstance(n.slice, ast.Constant) and \
+                n.slice.value == "valuedim":
+            return n.value.id
+    raise AnalysisError("_from_ovf: header dictionary (subscripted with 'valuedim') not found")
 
 
 def run(chk):
@@ -132,9 +141,10 @@ def d1_header(chk, repo, v, r):
     chk.ob("io.ovf._to_ovf::header::valuelabels-count", okl, "C09.D1",
            "valuelabels must have exactly one entry per written component in each of the three cases", v.f, st)
     # the single-label case belongs to write_dim == 1, the repeated one to the extended scalar
+    lab_name = ent[0][1][0].id if ent and ent[0][1] and isinstance(ent[0][1][0], ast.Name) else None
     for s_ in v.stmts():
         if isinstance(s_, ast.If) and s_.body and isinstance(s_.body[0], ast.Assign) and \
-                isinstance(s_.body[0].targets[0], ast.Name) and s_.body[0].targets[0].id == "valuelabels":
+                isinstance(s_.body[0].targets[0], ast.Name) and s_.body[0].targets[0].id == lab_name:
             ct = v.ev.term(s_.test, at=s_)
             chk.ob("io.ovf._to_ovf::header::valuelabels-cases", v.eq(ct, v.ctx.mk(("cmp", "eq"), tuple(sorted(
                 [v.ctx.const(1), wd], key=lambda x: x.key())))) or v.eq(ct, v.spec("W == 1", env={"W": wd})), "C09.D1",
@@ -142,8 +152,9 @@ def d1_header(chk, repo, v, r):
             break
     # keys the reader needs
     need = set()
+    hname = reader_header_name(r)
     for n in ast.walk(r.f.node):
-        if isinstance(n, ast.Subscript) and isinstance(n.value, ast.Name) and n.value.id == "header":
+        if isinstance(n, ast.Subscript) and isinstance(n.value, ast.Name) and n.value.id == hname:
             if isinstance(n.slice, ast.Constant):
                 need.add(n.slice.value)
             elif isinstance(n.slice, ast.JoinedStr):
@@ -159,9 +170,8 @@ def d1_header(chk, repo, v, r):
         ok = False
         if d and d[0] == MESH:
             rg = decode_new(repo, r.ctx, d[1].get("region")) if d[1].get("region") is not None else None
-            mesh_st = [s_ for s_ in r.stmts() if isinstance(s_, ast.Assign) and isinstance(s_.targets[0], ast.Name)
-                       and s_.targets[0].id == "mesh"]
-            hdr = r.ev.term(ast.Name(id="header", ctx=ast.Load()), at=mesh_st[0] if mesh_st else ret)
+            mesh_st = find_assign(r, lambda t_, s_: (r.ctx.head_of(t_) or ("", ""))[:2] == ("new", MESH))
+            hdr = local_term(r, hname, mesh_st[0] if mesh_st else ret)
             def per_axis(sfx):
                 return r.spec("[float(H[f'{key}" + sfx + "']) for key in 'xyz']", env={"H": hdr})
             if rg:
@@ -181,11 +191,17 @@ def d2_data_order(chk, repo, v, r):
     chk.rule("C09.D2", "data order: the writer permutes (x,y,z,c) -> (z,y,x,c) and flattens in C order (x fastest); the reader "
                        "reshapes to (*reversed(n), valuedim) and applies the inverse permutation")
     perms = []
-    for st in v.stmts():
-        if isinstance(st, ast.Assign) and isinstance(st.targets[0], ast.Name) and st.targets[0].id == "reordered":
-            c = decode_call(v.ctx, v.term(st.value, at=st))
-            if c and c[0] == ".transpose":
-                perms.append((tuple_consts(v.ctx, c[1][1]), c[1][0], st))
+    for st, nm, t_ in simple_assigns(v):
+        c = decode_call(v.ctx, t_)
+        if c and c[0] == ".transpose" and len(c[1]) == 2 and v.eq(c[1][0], v.spec("self.array")):
+            perms.append((tuple_consts(v.ctx, c[1][1]), c[1][0], st))
+    # the permuted array is what gets written: it must feed the binary chunks
+    feeds = any(isinstance(c_.func, ast.Attribute) and c_.func.attr == "tobytes" and perms and
+                any(v.eq(b, v.term(perms[0][2].value, at=perms[0][2]))
+                    for aid in v.ctx.all_atoms(v.term(c_.func.value, at=s_)) for b in [v.ctx.var(aid)])
+                for c_, s_ in v.calls())
+    chk.ob("io.ovf._to_ovf::permuted-array-is-written", feeds, "C09.D2",
+           "the binary chunks must be taken from the permuted array", v.f)
     ok = len(perms) == 1 and perms[0][0] == (2, 1, 0, 3) and v.eq(perms[0][1], v.spec("self.array"))
     chk.ob("io.ovf._to_ovf::data-permutation", ok, "C09.D2",
            f"writer permutation {perms[0][0] if perms else None}; expected self.array.transpose((2, 1, 0, 3))", v.f,
@@ -200,23 +216,21 @@ def d2_data_order(chk, repo, v, r):
             if p and inner and inner[0] == ".reshape" and perms:
                 comp = cm.perm_compose(perms[0][0], p) if perms[0][0] else None
                 d = decode_new(repo, r.ctx, a.get("mesh"))
-                hdr = r.ev.term(ast.Name(id="header", ctx=ast.Load()), at=ret)
+                hdr = local_term(r, reader_header_name(r), ret)
                 want_shape = r.spec("(*reversed(M.n), H['valuedim'])", env={"M": a.get("mesh"), "H": hdr})
                 okr = comp is not None and cm.is_identity(comp) and r.eq(inner[1][1], want_shape)
         chk.ob("io.ovf._from_ovf::inverse-permutation", okr, "C09.D2",
                f"value={r.show(val)[:200] if val is not None else None}: expected reshape((*reversed(mesh.n), valuedim)) followed by "
                "the inverse of the writer's permutation", r.f, ret)
         chk.ob("io.ovf._from_ovf::nvdim-is-valuedim", a.get("nvdim") is not None and
-               r.eq(a["nvdim"], r.spec("H['valuedim']", env={"H": r.ev.term(ast.Name(id='header', ctx=ast.Load()), at=ret)})),
+               r.eq(a["nvdim"], r.spec("H['valuedim']", env={"H": local_term(r, reader_header_name(r), ret)})),
                "C09.D2", f"nvdim={r.show(a.get('nvdim'))[:80]}", r.f, ret)
     # text representation rows: one row per cell, nvdim columns, in the same order
     okt = False
-    for st in v.stmts():
-        if isinstance(st, ast.Assign) and isinstance(st.targets[0], ast.Name) and st.targets[0].id == "data":
-            t = v.term(st.value, at=st)
-            c = decode_call(v.ctx, t)
-            if c and c[0].endswith("DataFrame"):
-                okt = v.eq(c[1][0], v.spec("self.array.transpose((2, 1, 0, 3)).reshape((-1, self.nvdim))"))
+    for st, nm, t in simple_assigns(v):
+        c = decode_call(v.ctx, t)
+        if c and c[0].endswith("DataFrame") and c[1]:
+            okt = v.eq(c[1][0], v.spec("self.array.transpose((2, 1, 0, 3)).reshape((-1, self.nvdim))"))
     chk.ob("io.ovf._to_ovf::text-rows", okt, "C09.D2", "text rows must be the permuted array reshaped to (-1, nvdim)", v.f)
     # valuedim for OVF 1.0 input is 3
     ok1 = False
@@ -234,74 +248,114 @@ def d2_data_order(chk, repo, v, r):
 
 
 # ------------------------------------------------------------------ D3
+def _dict_literal(v, keys):
+    """the statement `name = {<literal dict>}` whose keys are exactly `keys` -> (stmt, name, python value)"""
+    for st in v.stmts():
+        if isinstance(st, ast.Assign) and isinstance(st.targets[0], ast.Name) and isinstance(st.value, ast.Dict):
+            try:
+                val = ast.literal_eval(st.value)
+            except Exception:
+                continue
+            if set(val) == set(keys):
+                return st, st.targets[0].id, val
+    return None
+
+
+def _reader_roles(r):
+    """locate the reader's working values by what they are, not by what they are called"""
+    roles = {}
+    hname = reader_header_name(r)
+    roles["header"] = hname
+    for st, nm, t in simple_assigns(r):
+        c = decode_call(r.ctx, t)
+        h = r.ctx.head_of(t)
+        if c and c[0] == ".lower":
+            inner = r.ctx.head_of(c[1][0])
+            if inner and inner[0] == "sub" and (decode_call(r.ctx, r.ctx.args_of(c[1][0])[0]) or ("",))[0] == ".split":
+                roles.setdefault("mode", (st, nm, t))
+        if c and c[0] == "int" and len(c[1]) == 1:
+            inner = r.ctx.head_of(c[1][0])
+            if inner and inner[0] == "sub" and (decode_call(r.ctx, r.ctx.args_of(c[1][0])[0]) or ("",))[0] == ".split":
+                roles.setdefault("nbytes", (st, nm, t))
+        if h and h[0] == "fstr" and isinstance(st.value, ast.JoinedStr) and \
+                sum(isinstance(p, ast.FormattedValue) and isinstance(p.value, ast.IfExp) for p in st.value.values) == 2:
+            roles.setdefault("format", (st, nm, t))
+        if h and h[0] == "sub" and (decode_call(r.ctx, r.ctx.args_of(t)[0]) or ("",))[0] == "struct.unpack":
+            roles.setdefault("test_value", (st, nm, t))
+        if c and c[0] == "math.prod":
+            roles.setdefault("nodes", (st, nm, t))
+        if h and h[0] == "cmp" and h[1] == "in" and any((r.ctx.head_of(x) or ("", ""))[0] == "const" and "2.0" in str((r.ctx.head_of(x))[1])
+                                                        for x in r.ctx.args_of(t)):
+            roles.setdefault("ovf_v2", (st, nm, t))
+    return roles
+
+
 def d3_framing(chk, repo, v, r):
     chk.rule("C09.D3", "binary framing: writer formats/check values ('<f', 1234567.0), ('<d', 123456789012345.0) follow the OVF "
                        "specification and equal the reader's table {4: ..., 8: ...}; the reader uses '<' for 2.0 and '>' for 1.0; "
                        "the 'Begin: Data' words match what the reader parses")
-    table = None
-    for st in v.stmts():
-        if isinstance(st, ast.Assign) and isinstance(st.targets[0], ast.Name) and st.targets[0].id == "bin_rep":
-            try:
-                table = ast.literal_eval(st.value)
-            except Exception:
-                table = None
-            tst = st
+    wt = _dict_literal(v, ["bin4", "bin8"])
+    table = wt[2] if wt else None
     ok = table == {"bin4": ("<f", OVF_CHECK[4]), "bin8": ("<d", OVF_CHECK[8])}
     chk.ob("io.ovf._to_ovf::binary-table", ok, "C09.D3", f"writer table {table}; OVF 2.0 requires little-endian floats/doubles "
            f"preceded by {OVF_CHECK}", v.f)
-    rt = None
-    for st in r.stmts():
-        if isinstance(st, ast.Assign) and isinstance(st.targets[0], ast.Name) and st.targets[0].id == "check":
-            try:
-                rt = ast.literal_eval(st.value)
-            except Exception:
-                rt = None
+    rtab = _dict_literal(r, [4, 8])
+    rt = rtab[2] if rtab else None
     chk.ob("io.ovf._from_ovf::check-table", rt == OVF_CHECK, "C09.D3", f"reader check values {rt}; specification {OVF_CHECK}", r.f)
     # check value written first, data written with the table's format
     packs = [c for c, s in v.calls() if ast.unparse(c.func) == "struct.pack"]
-    okp = len(packs) == 1 and v.eq(v.term(packs[0]), v.spec("struct.pack(*bin_rep[representation])", at=v.owner(packs[0])))
-    chk.ob("io.ovf._to_ovf::check-value-written", okp, "C09.D3", "the data block must start with struct.pack(*bin_rep[representation])", v.f)
+    okp = False
     okd = False
-    for c, s in v.calls():
-        if isinstance(c.func, ast.Attribute) and c.func.attr == "tobytes":
-            t = v.term(c.func.value, at=s)
-            cc = decode_call(v.ctx, t)
-            if cc and cc[0] == "astype":
-                okd = v.eq(cc[1][1], v.spec("bin_rep[representation][0]", at=s))
-    chk.ob("io.ovf._to_ovf::data-format", okd, "C09.D3", "chunks must be converted with dtype=bin_rep[representation][0]", v.f)
+    if wt:
+        T = local_term(v, wt[1], v.owner(packs[0])) if packs else None
+        okp = len(packs) == 1 and v.eq(v.term(packs[0]), v.spec("struct.pack(*T[representation])", env={"T": T}))
+        for c, s in v.calls():
+            if isinstance(c.func, ast.Attribute) and c.func.attr == "tobytes":
+                t = v.term(c.func.value, at=s)
+                cc = decode_call(v.ctx, t)
+                if cc and cc[0] == "astype":
+                    okd = v.eq(cc[1][1], v.spec("T[representation][0]", env={"T": local_term(v, wt[1], s)}))
+    chk.ob("io.ovf._to_ovf::check-value-written", okp, "C09.D3",
+           "the data block must start with struct.pack(*table[representation])", v.f)
+    chk.ob("io.ovf._to_ovf::data-format", okd, "C09.D3", "chunks must be converted with dtype=table[representation][0]", v.f)
+    roles = _reader_roles(r)
     # reader format string
     okf = False
-    for st in r.stmts():
-        if isinstance(st, ast.Assign) and isinstance(st.targets[0], ast.Name) and st.targets[0].id == "format":
-            t = r.term(st.value, at=st)
-            want = r.spec("f\"{'<' if ovf_v2 else '>'}{'d' if nbytes == 8 else 'f'}\"", at=st)
-            okf = r.eq(t, want)
+    if "format" in roles and "ovf_v2" in roles and "nbytes" in roles:
+        st, nm, t = roles["format"]
+        want = r.spec("f\"{'<' if V else '>'}{'d' if N == 8 else 'f'}\"",
+                      env={"V": local_term(r, roles["ovf_v2"][1], st), "N": local_term(r, roles["nbytes"][1], st)})
+        okf = r.eq(t, want)
     chk.ob("io.ovf._from_ovf::format-string", okf, "C09.D3",
            "reader format must be ('<' for OVF 2.0 else '>') + ('d' for 8 bytes else 'f')", r.f)
-    # representation words
+    okv = "ovf_v2" in roles and any(is_str(r.ctx, x) is False and "2.0" in r.show(x) for x in r.ctx.args_of(roles["ovf_v2"][2]))
+    chk.ob("io.ovf._from_ovf::version-from-first-line", bool(okv) and (decode_call(r.ctx, [x for x in r.ctx.args_of(roles["ovf_v2"][2])
+                                                                                         if "next" in r.show(x)][0]) or ("",))[0] == "next"
+           if okv else False, "C09.D3", "the OVF version is decided by '2.0' in the first line of the file", r.f)
+    # representation words: constants assigned under `representation == <key>`
     words = {}
     for st in v.stmts():
-        if isinstance(st, ast.Assign) and isinstance(st.targets[0], ast.Name) and st.targets[0].id == "repr_string" and \
-                isinstance(st.value, ast.Constant):
-            conds = v.cfg.path_condition(st)
-            for c_, pol in conds:
-                if pol and isinstance(c_, ast.Compare) and isinstance(c_.comparators[0], ast.Constant):
+        if isinstance(st, ast.Assign) and isinstance(st.targets[0], ast.Name) and isinstance(st.value, ast.Constant) and \
+                isinstance(st.value.value, str):
+            for c_, pol in v.cfg.path_condition(st):
+                if pol and isinstance(c_, ast.Compare) and len(c_.ops) == 1 and isinstance(c_.ops[0], ast.Eq) and \
+                        ast.unparse(c_.left) == "representation" and isinstance(c_.comparators[0], ast.Constant):
                     words[c_.comparators[0].value] = st.value.value
     okw = words == {"bin4": "Binary 4", "bin8": "Binary 8", "txt": "Text"}
     chk.ob("io.ovf._to_ovf::representation-words", okw, "C09.D3",
            f"representation words {words}; OVF: 'Binary 4', 'Binary 8', 'Text' (the reader takes token 3 as mode and the last token "
            "as byte count)", v.f)
-    okm = False
-    for st in r.stmts():
-        if isinstance(st, ast.Assign) and isinstance(st.targets[0], ast.Name) and st.targets[0].id == "mode":
-            okm = r.eq(r.term(st.value, at=st), r.spec("line.split()[3].lower()", at=st))
-    okn = False
-    for st in r.stmts():
-        if isinstance(st, ast.Assign) and isinstance(st.targets[0], ast.Name) and st.targets[0].id == "nbytes":
-            okn = r.eq(r.term(st.value, at=st), r.spec("int(line.split()[-1])", at=st))
+    okm = okn = False
+    if "mode" in roles and "nbytes" in roles:
+        tm, tn = roles["mode"][2], roles["nbytes"][2]
+        cm_ = decode_call(r.ctx, tm)
+        line_m = decode_call(r.ctx, r.ctx.args_of(cm_[1][0])[0])[1][0]
+        cn_ = decode_call(r.ctx, tn)
+        line_n = decode_call(r.ctx, r.ctx.args_of(cn_[1][0])[0])[1][0]
+        okm = r.eq(tm, r.spec("L.split()[3].lower()", env={"L": line_m}))
+        okn = r.eq(tn, r.spec("int(L.split()[-1])", env={"L": line_m})) and r.eq(line_m, line_n)
     chk.ob("io.ovf._from_ovf::mode-tokens", okm and okn, "C09.D3",
-           "'# Begin: Data Binary 8' -> mode = token 3 lower-cased, nbytes = int(last token)", r.f)
-    unk, det = v.guard("representation != 'bin4' and representation != 'bin8' and representation != 'txt'", exc=("ValueError",))
+           "'# Begin: Data Binary 8' -> mode = token 3 lower-cased, nbytes = int(last token) of the same line", r.f)
     has_else_raise = any(n == "ValueError" and "representation" in ast.unparse(x) for x, n in v.raises())
     chk.ob("io.ovf._to_ovf::unknown-representation-refused", has_else_raise, "C09.D3",
            "representations other than bin4/bin8/txt must raise ValueError", v.f)
@@ -314,12 +368,23 @@ def d4_damaged(chk, repo, r):
                        "valuedim)), so a short data block cannot yield a field")
     reads = [s for c, s in r.calls() if ast.unparse(c.func) == "np.fromfile"]
     chk.require(len(reads) == 1, "_from_ovf: np.fromfile vanished")
-    ok, det = r.guard("nbytes not in (4, 8) or test_value != check[nbytes]", exc=("ValueError",), before=reads[0])
+    roles = _reader_roles(r)
+    rtab = _dict_literal(r, [4, 8])
+    need = [k for k in ("nbytes", "test_value", "format", "nodes") if k not in roles]
+    if need or not rtab:
+        chk.ob("io.ovf._from_ovf::check-value-guard", False, "C09.D4",
+               f"the reader's {need or 'check table'} could not be located: the check-value test is gone or unrecognisable", r.f, reads[0])
+        return
+    env = {"N": local_term(r, roles["nbytes"][1], reads[0]), "TV": local_term(r, roles["test_value"][1], reads[0]),
+           "CK": local_term(r, rtab[1], reads[0])}
+    ok, det = r.guard("N not in (4, 8) or TV != CK[N]", exc=("ValueError",), before=reads[0], env=env)
     chk.ob("io.ovf._from_ovf::check-value-guard", ok, "C09.D4", det, r.f, reads[0])
-    okt = False
-    for st in r.stmts():
-        if isinstance(st, ast.Assign) and isinstance(st.targets[0], ast.Name) and st.targets[0].id == "test_value":
-            okt = r.eq(r.term(st.value, at=st), r.spec("struct.unpack(format, f.read(nbytes))[0]", at=st))
+    st, nm, t = roles["test_value"]
+    c = decode_call(r.ctx, r.ctx.args_of(t)[0])
+    okt = bool(c and len(c[1]) == 2 and r.eq(c[1][0], local_term(r, roles["format"][1], st)) and
+               (decode_call(r.ctx, c[1][1]) or ("",))[0] == ".read" and
+               r.eq(decode_call(r.ctx, c[1][1])[1][1], local_term(r, roles["nbytes"][1], st)) and
+               is_const(r.ctx, r.ctx.args_of(t)[1], 0))
     chk.ob("io.ovf._from_ovf::check-value-read", okt, "C09.D4",
            "the check value is the first nbytes of the data block unpacked with the data format", r.f)
     c = None
@@ -327,78 +392,105 @@ def d4_damaged(chk, repo, r):
         if ast.unparse(call.func) == "np.fromfile":
             c = decode_call(r.ctx, r.term(call, at=s))
             cs = s
-    okc = bool(c and "count" in c[2] and r.eq(c[2]["count"], r.spec("int(nodes * header['valuedim'])", at=cs)) and
-               "dtype" in c[2] and r.eq(c[2]["dtype"], r.spec("format", at=cs)))
+    H = local_term(r, roles["header"], cs)
+    okc = bool(c and "count" in c[2] and r.eq(c[2]["count"], r.spec("int(NO * H['valuedim'])", env={"NO": local_term(r, roles["nodes"][1], cs), "H": H}))
+               and "dtype" in c[2] and r.eq(c[2]["dtype"], local_term(r, roles["format"][1], cs)))
     chk.ob("io.ovf._from_ovf::data-count", okc, "C09.D4", "exactly nodes*valuedim numbers of the data format are read", r.f)
-    okn = False
-    for st in r.stmts():
-        if isinstance(st, ast.Assign) and isinstance(st.targets[0], ast.Name) and st.targets[0].id == "nodes":
-            okn = r.eq(r.term(st.value, at=st), r.spec("math.prod(int(header[f'{key}nodes']) for key in 'xyz')", at=st))
+    st, nm, t = roles["nodes"]
+    okn = r.eq(t, r.spec("math.prod(int(H[f'{key}nodes']) for key in 'xyz')", env={"H": local_term(r, roles["header"], st)}))
     chk.ob("io.ovf._from_ovf::node-count", okn, "C09.D4", "nodes must be xnodes*ynodes*znodes", r.f)
 
 
 # ------------------------------------------------------------------ D5
 def d5_chunks(chk, repo, v):
     chk.rule("C09.D5", "chunked binary write covers the whole array: n_chunks = ceil(len/chunk) and chunk i is [i*chunk, (i+1)*chunk)")
+    nc = find_assign(v, lambda t, s: call_name(v, t) == "math.ceil")
     okn = False
-    for st in v.stmts():
-        if isinstance(st, ast.Assign) and isinstance(st.targets[0], ast.Name) and st.targets[0].id == "n_chunks":
-            okn = v.eq(v.term(st.value, at=st), v.spec("math.ceil(len(reordered.flat) / chunksize)", at=st))
-            nst = st
-    chk.ob("io.ovf._to_ovf::chunk-count", okn, "C09.D5", "n_chunks must be ceil(len(reordered.flat) / chunksize)", v.f)
+    chunk = None
+    flat = None
+    if nc:
+        c = decode_call(v.ctx, nc[2])
+        # ceil(len(X.flat) / K)
+        arg = c[1][0]
+        for st, nm, t in simple_assigns(v):
+            k = t.const()
+            if k is not None and k.denominator == 1 and k > 1:
+                cand = local_term(v, nm, nc[0])
+                for st2, nm2, t2 in simple_assigns(v):
+                    pass
+                chunk = (nm, cand)
+        if chunk:
+            for aid in v.ctx.all_atoms(arg):
+                hd, ar = v.ctx.atoms[aid]
+                if hd == ("attr", "flat"):
+                    flat = v.ctx.var(aid)
+            okn = flat is not None and v.eq(arg, v.spec("len(F) / K", env={"F": flat, "K": chunk[1]}))
+    chk.ob("io.ovf._to_ovf::chunk-count", okn, "C09.D5", "the number of chunks must be ceil(len(array.flat) / chunksize)", v.f)
     oks = False
-    for st in v.stmts():
-        if isinstance(st, ast.For):
-            it = v.term(st.iter, at=st)
-            if v.eq(it, v.spec("range(n_chunks)", at=st)):
-                i_ = each(v, it)
-                for c, s in v.calls():
-                    if isinstance(c.func, ast.Attribute) and c.func.attr == "tobytes" and s in list(walk_stmts(st.body)):
-                        cc = decode_call(v.ctx, v.term(c.func.value, at=s))
-                        if cc and cc[0] == "astype":
-                            want = v.spec("reordered.flat[i * chunksize:(i + 1) * chunksize]", at=s, env={"i": i_})
-                            oks = v.eq(cc[1][0], want)
-    chk.ob("io.ovf._to_ovf::chunk-slices", oks, "C09.D5", "chunk i must be reordered.flat[i*chunksize:(i+1)*chunksize]", v.f)
+    if nc and chunk and flat is not None:
+        for st in v.stmts():
+            if isinstance(st, ast.For):
+                it = v.term(st.iter, at=st)
+                if v.eq(it, v.spec("range(NC)", env={"NC": local_term(v, nc[1], st)})):
+                    i_ = each(v, it)
+                    for c, s in v.calls():
+                        if isinstance(c.func, ast.Attribute) and c.func.attr == "tobytes" and s in list(walk_stmts(st.body)):
+                            cc = decode_call(v.ctx, v.term(c.func.value, at=s))
+                            if cc and cc[0] == "astype":
+                                want = v.spec("F[i * K:(i + 1) * K]", env={"i": i_, "F": flat, "K": chunk[1]})
+                                oks = v.eq(cc[1][0], want)
+    chk.ob("io.ovf._to_ovf::chunk-slices", oks, "C09.D5", "chunk i must be array.flat[i*chunksize:(i+1)*chunksize]", v.f)
 
 
 # ------------------------------------------------------------------ D6
 def d6_codecs(chk, repo, v, r):
     chk.rule("C09.D6", "codec pairs: the unit None is written as the word 'None' and must be decoded back to None; labels are "
                        "written as field_<label> and the decoder must strip exactly the text up to the FIRST underscore")
-    # unit sentinel on the writer side
+    lines, hst = header_template(v)
+    unit_expr = lab_expr = None
+    for text, exprs in lines:
+        if text.startswith("# valueunits:") and exprs:
+            unit_expr = exprs[0]
+        if text.startswith("# valuelabels:") and exprs:
+            lab_expr = exprs[0]
     sent = None
-    for st in v.stmts():
-        if isinstance(st, ast.Assign) and isinstance(st.targets[0], ast.Name) and st.targets[0].id == "valueunits":
-            for n in ast.walk(st.value):
-                if isinstance(n, ast.IfExp) and isinstance(n.orelse, ast.Constant) and isinstance(n.orelse.value, str):
-                    sent = n.orelse.value
+    if isinstance(unit_expr, ast.Name):
+        for st in v.stmts():
+            if isinstance(st, ast.Assign) and isinstance(st.targets[0], ast.Name) and st.targets[0].id == unit_expr.id:
+                for n in ast.walk(st.value):
+                    if isinstance(n, ast.IfExp) and isinstance(n.orelse, ast.Constant) and isinstance(n.orelse.value, str):
+                        sent = n.orelse.value
     chk.ob("io.ovf._to_ovf::unit-sentinel", sent is not None, "C09.D6",
            "a field without unit needs a placeholder word in valueunits (one word per component)", v.f)
     ok = False
     for ret, a in cm.returned_news(r):
         mem = phi_members(r.ctx, a.get("unit")) if a.get("unit") is not None else []
         has_none = any(is_const(r.ctx, m, None) for m in mem)
+        words = [m for m in mem if not is_const(r.ctx, m, None)]
         for st in r.stmts():
             if isinstance(st, ast.If) and sent is not None:
                 ct = r.ev.term(st.test, at=st)
                 hd = r.ctx.head_of(ct)
                 if hd == ("cmp", "eq") and any(is_str(r.ctx, x, sent) for x in r.ctx.args_of(ct)) and \
-                        any(isinstance(s2, ast.Assign) and isinstance(s2.value, ast.Constant) and s2.value.value is None and
-                            isinstance(s2.targets[0], ast.Name) and s2.targets[0].id == "unit" for s2 in st.body):
+                        any(any(r.eq(x, w) for w in words) for x in r.ctx.args_of(ct)) and \
+                        any(isinstance(s2, ast.Assign) and isinstance(s2.value, ast.Constant) and s2.value.value is None
+                            for s2 in st.body):
                     ok = has_none
     chk.ob("io.ovf::unit::sentinel-decoded", ok, "C09.D6",
            f"the writer stores {sent!r} for unit=None; the reader must map that word back to None", r.f)
     # labels
     prefix = None
-    for st in v.stmts():
-        if isinstance(st, ast.Assign) and isinstance(st.targets[0], ast.Name) and st.targets[0].id == "valuelabels":
-            for n in ast.walk(st.value):
-                if isinstance(n, ast.JoinedStr) and n.values and isinstance(n.values[0], ast.Constant):
-                    prefix = n.values[0].value
+    if isinstance(lab_expr, ast.Name):
+        for st in v.stmts():
+            if isinstance(st, ast.Assign) and isinstance(st.targets[0], ast.Name) and st.targets[0].id == lab_expr.id:
+                for n in ast.walk(st.value):
+                    if isinstance(n, ast.JoinedStr) and n.values and isinstance(n.values[0], ast.Constant):
+                        prefix = n.values[0].value
     chk.ob("io.ovf._to_ovf::label-prefix", prefix is not None and prefix.endswith("_") and prefix.count("_") == 1, "C09.D6",
            f"labels are written with prefix {prefix!r}", v.f)
-    conv = repo.funcs.get(OVF + "_from_ovf.convert")
-    chk.require(conv is not None, "_from_ovf: label decoder `convert` vanished")
+    convs = [f for q, f in repo.funcs.items() if q.startswith(OVF + "_from_ovf.") and f.parent is not None]
+    chk.require(convs, "_from_ovf: label decoder (nested function) vanished")
+    conv = convs[0]
     okc = False
     det = "no decoding of the prefix found"
     for n in ast.walk(conv.node):
@@ -443,9 +535,9 @@ def d7_extend_scalar(chk, repo, v):
             if isinstance(sub, ast.IfExp):
                 tests.append(sub.test)
         for te in tests:
-            if not any(isinstance(x, ast.Name) and x.id == "extend_scalar" for x in ast.walk(te)):
-                continue
             t = v.term(te, at=st)
+            if not v.ctx.mentions_or_eq(t, raw):
+                continue
             ok = v.ctx.mentions_or_eq(t, want) and not _mentions_raw(v, t, raw, want)
             n += 1
             chk.ob(f"io.ovf._to_ovf::extend-scalar-qualified#{n}", ok, "C09.D7",
